@@ -142,6 +142,11 @@ pub(crate) fn is_assignable(expr: &Expr) -> bool {
     }
 }
 
+/// A statement that is just a string literal: a directive when it stands at the head of a body.
+pub(crate) fn is_directive_stmt(stmt: &Stmt) -> bool {
+    matches!(stmt, Stmt::Expr(ExprStmt { expr, .. }) if matches!(&**expr, Expr::Lit(Lit::Str(..))))
+}
+
 pub(crate) fn is_on(attr_name: &str) -> bool {
     match attr_name.as_bytes() {
         [b'o', b'n', c, ..] => !c.is_ascii_lowercase(),
